@@ -155,10 +155,12 @@ Definition source_ok (f t : string) : bool :=
   (if prefix_of "clone:" t then String.eqb t ("clone:" ++ f) || prefix_of ("clone:" ++ f ++ "+") t else true) &&
   (if contains "elem:copyslice:" t then contains ("elem:copyslice:" ++ f) t else true).
 
+(* a constructor that is handed a field of the original itself (recorded by the
+   translator as new:<fn>(alias:s.<field>)) builds an object that shares it *)
 Definition row_ok (row : string * string * string) : bool :=
   let '(f, c, t) := row in
   if negb (mutable_class c) then true
-  else fresh_treatment t && source_ok f t &&
+  else fresh_treatment t && source_ok f t && negb (contains "(alias:" t) &&
        (if String.eqb c "map" then elements_rebuilt t else true).
 
 Definition copy_violations (table : list (string * string * string)) : list string :=
